@@ -4,6 +4,7 @@ CONSTANTS
   Evil = 3
   ClaimSet = {1}
   NoteSet = {0, 1}
+  Services = {"a", "b"}
   MaxNet = 2
   MaxBlobs = 2
   MaxClock = 2
